@@ -969,7 +969,7 @@ static void lg_mutate_once(uint8_t *b, size_t *plen, size_t cap, vh_rng_t *r, co
       break;
     case 4: /* overwrite a section count */
       if (len >= 12) {
-        static const uint16_t cv[] = { 0, 1, 2, 3, 255, 256, 65535 };
+        static const uint16_t cv[] = { 0, 1, 2, 3, 4, 5, 16, 255, 256, 65535 };
         size_t                pos  = 4 + 2 * (size_t)vh_below(r, 4);
         unsigned              cur  = (unsigned)(b[pos] << 8 | b[pos + 1]);
         unsigned              v;
@@ -979,7 +979,7 @@ static void lg_mutate_once(uint8_t *b, size_t *plen, size_t cap, vh_rng_t *r, co
         } else if (k < 6) {
           v = cur ? cur - 1 : 1;
         } else {
-          v = cv[vh_below(r, 7)];
+          v = cv[vh_below(r, vh_chance(r, 1, 5) ? 10 : 7)];
         }
         b[pos]     = (uint8_t)(v >> 8);
         b[pos + 1] = (uint8_t)v;
